@@ -224,6 +224,12 @@ pub fn witness(p: &Pre, extra: serde_json::Value) -> serde_json::Value {
 
 /// Check a batch for C01 (interpreter vs reference machine).
 pub fn check_c01(rep: &mut Report, batch: &[Pre]) {
+    check_interp(rep, "C01", batch, false)
+}
+
+/// `strict_err`: also require Err (no value, no panic) where the reference machine predicts an
+/// error outcome (nesting depth exceeded, access outside the regions).
+pub fn check_interp(rep: &mut Report, prop: &str, batch: &[Pre], strict_err: bool) {
     for p in batch {
         let nontrivial = matches!(p.rr.outcome, Outcome::Value(_));
         rep.case(if nontrivial { Some(p.case.hash()) } else { None });
@@ -231,13 +237,30 @@ pub fn check_c01(rep: &mut Report, batch: &[Pre]) {
         if rep.want_sample() && nontrivial && rep.get("evaluations") % 97 == 1 {
             rep.sample(witness(p, json!({"steps": p.rr.steps})));
         }
+        if strict_err {
+            let want_err = match &p.rr.outcome {
+                Outcome::DepthExceeded { .. } => Some("depth-exceeded"),
+                Outcome::Oob { .. } => Some("stack-or-region-overrun"),
+                _ => None,
+            };
+            if let Some(what) = want_err {
+                rep.count(&format!("expected_err_{what}"));
+                match &p.ir.ran {
+                    Ran::Err(_) => rep.count("err_as_expected"),
+                    Ran::Ok(v) => rep.violation(&format!("{prop}:interp:no-error:{what}"), format!("the reference machine predicts an error ({:?}) but the interpreter returned Ok({v:#x})", p.rr.outcome), witness(p, json!({}))),
+                    Ran::Panic(m) => rep.violation(&format!("{prop}:interp:panic:{what}"), format!("interpreter panicked instead of returning an error: {m}"), witness(p, json!({}))),
+                    Ran::Rejected(_) => {}
+                }
+                continue;
+            }
+        }
         if let Some((kind, detail)) = c01_verdict(p) {
             if let Some(ops) = explained_by_alt(p) {
-                let sig = format!("C01:interp:known-alt:unsigned-jmp-imm-zero-extended:{ops}");
+                let sig = format!("{prop}:interp:known-alt:unsigned-jmp-imm-zero-extended:{ops}");
                 rep.violation(&sig, format!("{detail} [behaviour reproduced exactly by zero-extending the immediate of {ops}]"), witness(p, json!({})));
                 continue;
             }
-            let sigbase = format!("C01:interp:{kind}");
+            let sigbase = format!("{prop}:interp:{kind}");
             // minimise (cheap: in-process)
             let want = kind.clone();
             let min = minimise(
@@ -250,7 +273,7 @@ pub fn check_c01(rep: &mut Report, batch: &[Pre]) {
             );
             let q = pre_run(min, p.tag.clone(), BUDGET);
             if let Some(ops) = explained_by_alt(&q) {
-                let sig = format!("C01:interp:known-alt:unsigned-jmp-imm-zero-extended:{ops}");
+                let sig = format!("{prop}:interp:known-alt:unsigned-jmp-imm-zero-extended:{ops}");
                 rep.violation(&sig, format!("{detail} [minimised program reproduced exactly by zero-extending the immediate of {ops}]"), witness(&q, json!({"original": p.case.to_json()})));
                 continue;
             }
